@@ -82,8 +82,8 @@ def check(ctx):
             readies = set()
             for b in body.reachable:
                 vs = util.variant_switch(body, dg, b)
-                if vs and body.locals[vs[3]]["ty"].startswith("std::task::Poll<()>") and vs[1].get(0) is not None and body.dominates(l, b):
-                    readies.add(vs[1][0])
+                if vs and body.locals[vs[3]]["ty"].startswith("std::task::Poll<()>") and body.dominates(l, b):
+                    readies.add(vs[1].get(0, vs[2]))
             if not readies or fin[0] in body.reach_from(l, avoid=frozenset(readies)): awaited = False
         ctx.ob("R12.1", f"{co}|stream-loop-awaited", awaited, body.loc(fin[0]), "the stream loop's future is awaited to completion (Ready edge) before the executor is declared finished")
         ctx.ob("R12.1", f"{co}|start-before-loop", all(body.dominates(start[0], l) for l in loops), body.loc(start[0]), "register_execution_start dominates the stream loop (start time precedes finish time)")
